@@ -161,6 +161,15 @@ def r2_slots(ctx, sgn, qfn):
         if len(changed) != 1:
             ctx.violation("C16.R2", "C16.R2|slot-count|%s" % coding, "an element with coding %r changes %d slots (expected exactly one)" % (coding, len(changed)))
             continue
+        # optional whitespace: the compared coding is trim() of the element (or of the part before ';')
+        ct = None
+        for tt, vv in o.cons.known.items():
+            if isinstance(tt, tuple) and tt[0] == "eq" and vv == 1:
+                for x in (tt[1], tt[2]):
+                    if not (isinstance(x, tuple) and x[0] == "str"):
+                        ct = x
+        if ct is not None and "::trim'" not in repr(ct)[:400]:
+            ctx.violation("C16.R2", "C16.R2|coding-not-trimmed", "the coding name compared with %r is not trimmed: optional whitespace around `,` / `;` would hide it" % coding)
         key, new = changed[0]
         if slots.setdefault(coding, key) != key:
             ctx.violation("C16.R2", "C16.R2|slot-ambiguous|%s" % coding, "coding %r writes different slots on different paths" % coding)
@@ -178,6 +187,14 @@ def r2_slots(ctx, sgn, qfn):
                 ctx.violation("C16.R2", "C16.R2|default-weight", "an element without `;` gets weight %s, not 1000" % short(q, 40))
         elif semi == "Some":
             s = repr(q)
+            # the weight text: trim() of the part after ';', then the literal prefix `q=`
+            for tt, vv in o.cons.variant.items():
+                if isinstance(tt, tuple) and tt[0] == "call" and tt[1].endswith("strip_prefix") and vv == "Some":
+                    ss = repr(tt)
+                    if "'q='" not in ss:
+                        ctx.violation("C16.R2", "C16.R2|weight-prefix", "the weight parameter is not introduced by the literal `q=`")
+                    elif "::trim'" not in ss:
+                        ctx.violation("C16.R2", "C16.R2|weight-not-trimmed", "the weight parameter is not trimmed before `q=` is matched (whitespace after `;` would make the header unparseable)")
             from_parser = qfn in s
             if not from_parser and is_const(q):
                 # the path may have tested the parsed weight against a constant (then the value is folded): accept if so
